@@ -218,7 +218,7 @@ where
 
         let gcd = integer::gcd(sample_rate_input, sample_rate_output);
         let min_chunk_in = sample_rate_input / gcd;
-        let fft_chunks = (chunk_size_in as f32 / min_chunk_in as f32).ceil() as usize;
+        let fft_chunks = (chunk_size_in + min_chunk_in - 1) / min_chunk_in;
         let fft_size_out = fft_chunks * sample_rate_output / gcd;
         let fft_size_in = fft_chunks * sample_rate_input / gcd;
 
@@ -351,7 +351,7 @@ where
         let gcd = integer::gcd(sample_rate_input, sample_rate_output);
         let min_chunk_out = sample_rate_output / gcd;
         let wanted_subsize = chunk_size_out / sub_chunks;
-        let fft_chunks = (wanted_subsize as f32 / min_chunk_out as f32).ceil() as usize;
+        let fft_chunks = (wanted_subsize + min_chunk_out - 1) / min_chunk_out;
         let fft_size_out = fft_chunks * sample_rate_output / gcd;
         let fft_size_in = fft_chunks * sample_rate_input / gcd;
 
@@ -369,7 +369,7 @@ where
         let channel_mask = vec![true; nbr_channels];
 
         let saved_frames = 0;
-        let chunks_needed = (chunk_size_out as f32 / fft_size_out as f32).ceil() as usize;
+        let chunks_needed = (chunk_size_out + fft_size_out - 1) / fft_size_out;
         let frames_needed = chunks_needed * fft_size_in;
 
         Ok(FftFixedOut {
@@ -459,13 +459,13 @@ where
             0
         };
         let input_frames_used = self.frames_needed;
-        let chunks_needed = (frames_needed_out as f32 / self.fft_size_out as f32).ceil() as usize;
+        let chunks_needed = (frames_needed_out + self.fft_size_out - 1) / self.fft_size_out;
         self.frames_needed = chunks_needed * self.fft_size_in;
         Ok((input_frames_used, self.chunk_size_out))
     }
 
     fn input_frames_max(&self) -> usize {
-        (self.chunk_size_out as f32 / self.fft_size_out as f32).ceil() as usize * self.fft_size_in
+        (self.chunk_size_out + self.fft_size_out - 1) / self.fft_size_out * self.fft_size_in
     }
 
     fn input_frames_next(&self) -> usize {
@@ -509,7 +509,7 @@ where
             .for_each(|ch| ch.iter_mut().for_each(|s| *s = T::zero()));
         self.channel_mask.iter_mut().for_each(|val| *val = true);
         self.saved_frames = 0;
-        let chunks_needed = (self.chunk_size_out as f32 / self.fft_size_out as f32).ceil() as usize;
+        let chunks_needed = (self.chunk_size_out + self.fft_size_out - 1) / self.fft_size_out;
         self.frames_needed = chunks_needed * self.fft_size_in;
     }
 }
@@ -538,7 +538,7 @@ where
         let gcd = integer::gcd(sample_rate_input, sample_rate_output);
         let min_chunk_in = sample_rate_input / gcd;
         let wanted_subsize = chunk_size_in / sub_chunks;
-        let fft_chunks = (wanted_subsize as f32 / min_chunk_in as f32).ceil() as usize;
+        let fft_chunks = (wanted_subsize + min_chunk_in - 1) / min_chunk_in;
         let fft_size_out = fft_chunks * sample_rate_output / gcd;
         let fft_size_in = fft_chunks * sample_rate_input / gcd;
 
@@ -593,8 +593,7 @@ where
         };
 
         let next_saved_frames = self.saved_frames + self.chunk_size_in;
-        let nbr_chunks_ready =
-            (next_saved_frames as f32 / self.fft_size_in as f32).floor() as usize;
+        let nbr_chunks_ready = next_saved_frames / self.fft_size_in;
         let needed_len = nbr_chunks_ready * self.fft_size_out;
 
         validate_buffers(
@@ -671,9 +670,7 @@ where
     }
 
     fn output_frames_next(&self) -> usize {
-        (((self.saved_frames + self.chunk_size_in) as f32) / self.fft_size_in as f32).floor()
-            as usize
-            * self.fft_size_out
+        (self.saved_frames + self.chunk_size_in) / self.fft_size_in * self.fft_size_out
     }
 
     fn output_delay(&self) -> usize {
